@@ -48,7 +48,11 @@ static EbErrorType make(T **pp) { EB_NEW(*pp, output_bitstream_unit_ctor, (uint3
 void harness(void) {
     T *p = NULL;
 #if FAIL
+#ifdef KLO
+    v_arm_single_failure_in(KLO, KHI); v_create_may_fail = 1;   /* fault position k symbolic within [KLO,KHI]; the ranges of the queries partition [0,MAXREQ] */
+#else
     v_arm_single_failure(MAXREQ); v_create_may_fail = 1;
+#endif
 #endif
     EbErrorType r = make(&p);
     int failed = v_alloc_failures;
